@@ -60,7 +60,7 @@ def gen_config(d: Draw, prop):
         cfg['config_orbit'] = d.pick(['period', 'axis_m', 'axis_au'])
     if d.chance(1, 4):
         # a second tidal body shares the orbit (updates of the two bodies interleave)
-        cfg['n_bodies'] = 2
+        cfg['n_bodies'] = 2 if (prop != 'C17' or d.chance(2, 3)) else 3
         cfg['sync2'] = d.chance(1, 2)
     return cfg
 
@@ -127,6 +127,10 @@ def gen_set_states(d: Draw, cfg):
 
 
 def gen_op(d: Draw, cfg, prop):
+    if prop == 'C17' and cfg.get('n_bodies', 1) >= 2 and d.chance(1, 12):
+        # which body's orbit the host's signature addresses (C17 only: for C13 the reference model of the host's own tides
+        # would have to follow the switch, which the property does not speak about)
+        return {'op': 'o.set_host_tide_raiser', 'body': d.below(cfg['n_bodies']), 'sig': d.pick(['instance', 'name', 'index'])}
     if cfg.get('host_tides') and prop == 'C13' and d.chance(1, 5):
         return gen_host_op(d, cfg)
     if cfg['host'] == 'giant' and d.chance(1, 8):
@@ -134,11 +138,11 @@ def gen_op(d: Draw, cfg, prop):
     if d.chance(1, 10 if cfg.get('n_bodies', 1) < 2 else 5):
         return gen_set_states(d, cfg)
     if cfg.get('n_bodies', 1) >= 2 and d.chance(1, 3):
-        # an update of the companion body: it is a simple CPL world with its own spin-sync flag
+        # an update of a companion body: a simple CPL world with its own spin-sync flag
         cfg2 = dict(cfg, model='cpl', sync=cfg.get('sync2', True))
         op = _gen_op(d, cfg2, prop)
         if op['op'] != 'o.time':
-            op['target'] = 1
+            op['target'] = d.between(1, cfg['n_bodies'] - 1)
         return op
     return _gen_op(d, cfg, prop)
 
@@ -237,6 +241,9 @@ def model_apply(state, op, n_layers=None):
     """The reference model: last applied value of every independent variable (and how the separation / spin were given)."""
     kind = op['op']
     a = op.get('args', {})
+    if kind == 'o.set_host_tide_raiser':
+        state['_raiser'] = op['body']
+        return
     if kind == 'o.set_states':
         plural = {'eccentricity': 'eccentricity', 'semi_major_axis': 'semi_major_axis', 'orbital_frequency': 'orbital_frequency',
                   'orbital_period': 'orbital_period'}
@@ -251,7 +258,7 @@ def model_apply(state, op, n_layers=None):
     if kind != 'o.time':
         tgt = op.get('target', 0)
         if tgt == 'host' and _is_orbital(op):
-            tgt = 0        # the host's signature addresses the orbit of its tide raiser = the first tidal body
+            tgt = state.get('_raiser', 0)   # the host's signature addresses the orbit of its tide raiser (first body by default)
         state = state.setdefault('host' if tgt == 'host' else 'body%d' % tgt, {})
     if kind in ('w.set_state', 'o.set_state'):
         for key, v in a.items():
@@ -436,7 +443,7 @@ class OopStateEngine(EngineBase):
                     continue
                 if key in ('host', 'host_tides') and any(o.get('target') == 'host' for o in plan['ops']):
                     continue
-                if key == 'n_bodies' and any(o.get('target') == 1 or 1 in o.get('targets', []) for o in plan['ops']):
+                if key == 'n_bodies' and any(o.get('target') in (1, 2) or o.get('body') or any(t_ >= 1 for t_ in o.get('targets', [])) for o in plan['ops']):
                     continue
                 new = copy.deepcopy(plan)
                 new['config'][key] = plain
@@ -772,7 +779,9 @@ def _has_spin(op):
 def _abstract(state):
     out = {}
     for k, v in state.items():
-        if k.startswith('body') or k == 'host':
+        if k == '_raiser':
+            out[k] = v
+        elif k.startswith('body') or k == 'host':
             out[k] = _abstract(v)
         elif k == 'T':
             out[k] = {str(i): (x['v'], x['arr']) for i, x in v.items()}
@@ -806,6 +815,8 @@ def _trigger(op):
 
 
 def _op_label(op):
+    if op['op'] == 'o.set_host_tide_raiser':
+        return 'o.set_host_tide_raiser(body%d by %s)' % (op['body'], op.get('sig'))
     if op['op'] == 'o.set_states':
         def val0(v):
             return ('%g' % v['v']) + ('[]' if v.get('arr') else '')
